@@ -110,7 +110,7 @@ CFG = {
                   "on every run, and a fourth stream gives both sides encodings with repeated set items and unsorted / repeated map keys.",
     "level_note": "Trusted: Coq kernel; the schemas in Ledger/Schemas.v as a description of the Rust types (tied by correspondence on the "
                   "generated cases only); the model decoder is the Rust decoder restricted to writer-produced encodings (any head width, "
-                  "writer key order, definite containers except Plutus lists/long byte strings); extraction (ExtrOcamlBasic) and the OCaml/Rust glue. "
+                  "writer key order, definite containers except Plutus lists/long byte strings; sdec is stricter than the library on repeated metadata-map keys and repeated witness-set scripts, see notes/design/C01.md); extraction (ExtrOcamlBasic) and the OCaml/Rust glue. "
                   "No axioms. Types without a schema (coverage.unmodelled_types in the evidence) are not covered; wasm JsError paths are not exercised.",
     "theorems": ["C01_schema_roundtrip", "C01_roundtrip", "C01_reencode", "C01_api_roundtrip", "C01_api_reencode",
                  "C01_norm_only_empties", "C01_dec_sound", "C01_decode_encode_idempotent", "C01_sdec_roundtrip", "C01_hex", "C01_loop_fuel"],
